@@ -83,7 +83,7 @@ def showRes : Option Res → String
   | some r => s!"{r.ty.show};{r.errs};{b2s r.unp}"
 
 def annClasses (e : AnnExpr) : String :=
-  let cs := (if D13_starUnpack e then ["starUnpack"] else []) ++ (if D13_finalQuoted e then ["finalQuoted"] else [])
+  let cs := (if D13_starUnpack e then ["starUnpack"] else [])
   if cs.isEmpty then "-" else ",".intercalate cs
 
 def annRClasses (e : AnnExpr) : String :=
@@ -155,9 +155,7 @@ def showISig (s : ISig) : String :=
 
 def sigClasses (d : DefArgs) : String :=
   let anns := d.allArgs.filterMap (·.ann) ++ d.returns.toList
-  let cs := (if D13_dunderPosOnly d then ["dunderPosOnly"] else []) ++
-    (if anns.any D13_starUnpack then ["starUnpack"] else []) ++
-    (if anns.any D13_finalQuoted then ["finalQuoted"] else [])
+  let cs := (if anns.any D13_starUnpack then ["starUnpack"] else [])
   if cs.isEmpty then "-" else ",".intercalate cs
 
 def sigRClasses (d : DefArgs) : String :=
